@@ -196,6 +196,9 @@ var copyRulePkgs = func() map[string][]string {
 	for _, p := range []string{"C07", "C09", "C10", "C11", "C13", "C15"} {
 		m[p] = plot
 	}
+	// the keeper's load checks ask the wallet (key ownership, ordinals): its state belongs to C11 and C15 too
+	m["C11"] = append(append([]string{}, plot...), wallet[0], wallet[5])
+	m["C15"] = append(append([]string{}, plot...), wallet[0], wallet[5], repoMod+"/mining")
 	m["C08"] = append(append([]string{}, miner...), fractal[0])
 	m["C16"], m["C17"] = fractal, append(append([]string{}, fractal...), miner[1])
 	m["C20"] = append(append([]string{}, api...), plot[2], plot[3])
@@ -213,6 +216,9 @@ func runCopyRule(c *Ctx, prop string) {
 	rule2 := prop + "-NILOK"
 	c.Rule(rule2, "a helper the reference tree does not have that reports by error never hands back a nil object with an error that may be nil, unless every caller tests the object (no new crash path through a refactored gate)", 1)
 	checkHelperNilContract(c, rule2, pkgs...)
+	rule3 := prop + "-NEWSTATE"
+	c.Rule(rule3, "state added next to the mechanism (a field or package-level variable the reference tree does not have) is kept consistent: accessed under the lock its writers hold, refreshed or invalidated by every exported operation that changes what it is derived from, and — for a memo — keyed by everything its value depends on", 1)
+	checkNewState(c, rule3, pkgs...)
 }
 
 // checkHelperNilContract (rule <P>-NILOK): a helper the reference tree does not have that reports by error
